@@ -449,9 +449,23 @@ func propServe(c ServeCase) (o pbt.Outcome) {
 		return
 	}
 	// after the reference's close request the application sees end-of-stream
-	conn.SetReadDeadline(time.Now().Add(5 * time.Second))
+	// (a deadline that expires first says nothing: retried up to 30 s in all,
+	// then the case is inconclusive - on an overloaded machine the reference
+	// server's close request may simply not have been sent yet)
 	var one [1]byte
-	if k, err := conn.Read(one[:]); !(k == 0 && err == io.EOF) {
+	var k int
+	for end := time.Now().Add(30 * time.Second); ; {
+		conn.SetReadDeadline(time.Now().Add(5 * time.Second))
+		k, err = conn.Read(one[:])
+		if !(k == 0 && err != nil && e2e.IsTimeout(err)) || time.Now().After(end) {
+			break
+		}
+	}
+	if k == 0 && err != nil && e2e.IsTimeout(err) {
+		o.Inconclusive = "no end-of-stream within 30 s after the reference's close request (machine overloaded?)"
+		return
+	}
+	if !(k == 0 && err == io.EOF) {
 		o.Failf("accept", "after the reference's close request the client application's Read returned n=%d err=%v, want EOF", k, err)
 		return
 	}
